@@ -97,6 +97,7 @@ func genC03(c *Ctx) *Plan {
 			p.Net.Parts = append(p.Net.Parts, Partition{From: from, To: from + r.i64n(5_000_000_000), A: a, UDP: true, TCP: r.chance(0.5), OneWay: r.chance(0.3)})
 		}
 	}
+	p.P["freeze_us"] = int64(r.pick(0, 0, 100, 2000))
 	p.YieldOff = genYieldOff(r)
 	return p
 }
@@ -280,6 +281,11 @@ func execC03(c *Ctx) {
 	hm := &healthMon{}
 	em := newEventMon()
 	cx := startClusterRun(c, mon, hm, em, newSelfMon())
+	if fz := p.param("freeze_us", 0); fz > 0 {
+		c.Sim.freezeSites = map[string]bool{"alive": true, "suspect": true, "dead": true, "conn": true, "handoff": true}
+		c.Sim.freezeProb = 0.05
+		c.Sim.freezeMax = time.Duration(fz) * time.Microsecond
+	}
 	ps := &probeSched{c: c, cx: cx, hist: map[string][]string{}, epoch: map[string]string{}}
 	if p.Cfg.IndirectChecks == 0 {
 		cx.cl.net.tapFn = ps.onTap
@@ -300,6 +306,7 @@ func execC03(c *Ctx) {
 	if _, ok := cx.crashT[victim]; ok && mon.tracked > 0 && len(mon.removed) > 0 {
 		c.Res.Nontrivial = true
 	}
+	c.Res.Faults["goroutine_descheduled"] += c.Sim.frozen
 	c.Stat("probe_pings_judged", ps.pings)
 	c.Stat("max_detect_ms", int64(mon.maxLat/time.Millisecond))
 	c.Stat("bound_ms", int64(mon.bound/time.Millisecond))
